@@ -230,7 +230,9 @@ class ListVal(object):
 
 class Outcome(object):
 
-    def __init__(self, prod, status, value, nodes, conds, effects, raised):
+    def __init__(self, prod, status, value, nodes, conds, effects, raised,
+                 narrow=None):
+        self.narrow = narrow or {}
         self.prod = prod
         self.status = status      # 'ok' | 'raise'
         self.value = value        # resolved value of p[0] (None if unset)
@@ -238,6 +240,14 @@ class Outcome(object):
         self.conds = conds
         self.effects = effects
         self.raised = raised
+
+    def none_slots(self):
+        """slots known to hold None on this path"""
+        out = set()
+        for idx, facts in self.narrow.items():
+            if ('none', True) in facts:
+                out.add(idx)
+        return out
 
     def __repr__(self):
         return '<Outcome %s %s %r>' % (self.prod.text, self.status,
@@ -287,7 +297,7 @@ class Interp(object):
                     nodes.append(self.resolve(Ref(oid), s, cache))
             outs.append(Outcome(prod, status, value, nodes, s.conds,
                                 s.effects, val if status == 'raise' else
-                                None))
+                                None, dict(s.narrow)))
         return outs
 
     def err(self, node, msg):
